@@ -1500,3 +1500,43 @@ def check_parse_every_path(ix, rep, rule='R-EVERYPATH'):
         rep.fail(rule, f.module.rel, f.qual, 'parse:whole-text', 'the text handed to the lexer is not built from both self.modular_spec and self.spec (%s): part of what the user '
                  'supplied is never checked' % sorted(srcs), stream.lineno)
     return n
+
+
+def check_swallow(ix, rep, rule='R-EXC'):
+    """a fault found while the text is checked leaves parse() as an RTAMTException -- unless something on the way throws it away.  Two shapes do:
+    a `return` / `break` / `continue` inside a `finally:` (Python discards the exception in flight), and a handler for everything
+    (`except:` / `except Exception` / `BaseException`) whose body neither raises nor records anything.  Checked in every function parse() reaches;
+    the first shape also in the rest of rtamt/syntax and rtamt/spec (zero sites today)."""
+    n = 0
+    reach = parse_reachable(ix)
+    funcs = {id(f): f for f in reach.values()}
+    for mod in ix.modules.values():
+        if (mod.rel.startswith('rtamt/syntax/') or mod.rel.startswith('rtamt/spec/')) and '/antlr/' not in mod.rel and not ix.unimportable(mod):
+            for c in mod.classes.values():
+                for f in c.methods.values():
+                    funcs.setdefault(id(f), f)
+            for f in mod.functions.values():
+                funcs.setdefault(id(f), f)
+    for f in sorted(funcs.values(), key=lambda g: (g.module.rel, g.qual)):
+        n += 1
+        bad = None
+        for t in ast.walk(f.node):
+            if isinstance(t, ast.Try):
+                for st in t.finalbody:
+                    for x in ast.walk(st):
+                        if isinstance(x, (ast.FunctionDef, ast.Lambda)):
+                            break
+                        if isinstance(x, (ast.Return, ast.Break, ast.Continue)):
+                            bad = (x, '`%s` inside `finally:` discards the exception in flight: a semantic fault found by the builder (begin > end, undeclared constant, duplicate '
+                                      'declaration) never leaves parse(), the text is accepted' % type(x).__name__.lower())
+                for h in t.handlers:
+                    broad = h.type is None or (isinstance(h.type, ast.Name) and h.type.id in ('Exception', 'BaseException'))
+                    if broad and id(f) in {id(g) for g in reach.values()}:
+                        acts = [x for b in h.body for x in ast.walk(b) if isinstance(x, (ast.Raise, ast.Call))]
+                        if not acts:
+                            bad = (h, 'a handler for every exception that neither raises nor reports: whatever went wrong while checking the text is dropped')
+        if bad:
+            rep.fail(rule, f.module.rel, f.qual, 'swallow', bad[1], bad[0].lineno)
+        else:
+            rep.ok(rule, f.module.rel, f.qual, 'no-swallow', 'no exception is discarded on the way out', f.node.lineno)
+    return n
